@@ -19,8 +19,24 @@ func init() {
 			return x.newError("fmt.Errorf: " + f)
 		},
 		"fmt.Sprintf": func(x *Exec, fr *frame, fn *ssa.Function, a []Value) Value {
-			f := cstr(x, a[0], "format string")
-			return x.sprintf(f, sliceVals(a[1]))
+			return x.sprintfAny(a[0].(Str), sliceVals(a[1]))
+		},
+		// fmt.Fprintf(w, format, args...): formatted like Sprintf, then handed to w.Write
+		"fmt.Fprintf": func(x *Exec, fr *frame, fn *ssa.Function, a []Value) Value {
+			out := x.sprintfAny(a[1].(Str), sliceVals(a[2]))
+			it := x.asIface(a[0])
+			if it.T == nil {
+				x.tpanic("nil pointer dereference (Fprintf to a nil io.Writer)")
+			}
+			m := x.eng.lookupMethodByName(it.T, "Write")
+			if m == nil {
+				x.unsupported("fmt.Fprintf: writer without a Write method")
+			}
+			arr := x.newArr(len(out.B))
+			for i, t := range out.B {
+				arr.E[i] = t
+			}
+			return x.callFn(m, []Value{it.V, Slice{A: arr, Len: len(out.B), Cap: len(out.B)}}, nil, fr)
 		},
 		"fmt.Sprint": func(x *Exec, fr *frame, fn *ssa.Function, a []Value) Value {
 			args := sliceVals(a[0])
@@ -98,6 +114,50 @@ func sliceVals(v Value) []Value {
 		return nil
 	}
 	return append([]Value(nil), s.A.E[s.Off:s.Off+s.Len]...)
+}
+
+// sprintfAny: a concrete format string goes through sprintf; a format string with symbolic
+// bytes (data used as a format) is interpreted byte by byte for the argument-less case:
+// "%%" is a percent sign, "%" + verb with no operand left is "%!verb(MISSING)", a trailing
+// "%" is "%!(NOVERB)"; flags, widths and operands with a symbolic format are a model limit.
+func (x *Exec) sprintfAny(f Str, args []Value) Str {
+	if cs, ok := f.Concrete(); ok {
+		return x.sprintf(cs, args)
+	}
+	if len(args) > 0 {
+		x.unsupported("model limit: fmt format string with symbolic bytes and operands")
+	}
+	ts := x.ts
+	var out []*Term
+	for i := 0; i < len(f.B); i++ {
+		c := f.B[i]
+		if !x.branch(ts.Eq(c, ts.BV(8, '%')), "fmt-percent") {
+			out = append(out, c)
+			continue
+		}
+		i++
+		if i >= len(f.B) {
+			out = append(out, ts.StrOf("%!(NOVERB)").B...)
+			break
+		}
+		v := f.B[i]
+		if x.branch(ts.Eq(v, ts.BV(8, '%')), "fmt-percent2") {
+			out = append(out, ts.BV(8, '%'))
+			continue
+		}
+		for _, fl := range []byte("#0+- 123456789.*[") {
+			if x.branch(ts.Eq(v, ts.BV(8, uint64(fl))), "fmt-flag") {
+				x.unsupported("model limit: flags or width after a symbolic percent sign in a format string")
+			}
+		}
+		if x.branch(ts.Cmp(OULt, ts.BV(8, 0x7f), v), "fmt-nonascii") {
+			x.unsupported("model limit: non-ASCII verb in a format string")
+		}
+		out = append(out, ts.StrOf("%!").B...)
+		out = append(out, v)
+		out = append(out, ts.StrOf("(MISSING)").B...)
+	}
+	return Str{out}
 }
 
 func (x *Exec) sprintf(f string, args []Value) Str {
